@@ -32,6 +32,7 @@ import json
 import math
 import multiprocessing as mp
 import threading
+import time
 
 import lib
 
@@ -439,8 +440,12 @@ class Recorder:
             return BadBool()
         raise RuntimeError("rebac down")
 
+    def _lag(self):
+        d = self.data() if callable(self.data) else self.data
+        return float((d or {}).get("lag") or 0)
+
     async def _later(self, resp):
-        await asyncio.sleep(0)
+        await asyncio.sleep(self._lag())
         if resp[0] == "timeout":
             ev = asyncio.Event()
             await ev.wait()
@@ -492,6 +497,8 @@ class Recorder:
     def check(self, subject, relation, resource, *, context=None):
         resp, how = self._note(subject, relation, resource, context)
         if how == "plain":
+            if self._lag():
+                time.sleep(self._lag())
             return self._now(resp)
         if how in ("future", "task"):
             from rbacx.core.relctx import EVAL_LOOP
@@ -623,7 +630,11 @@ def run_conc_impl(c):
     jobs = c["jobs"]
     res = [None] * len(jobs)
 
+    stagger = float(c.get("stagger") or 0)
+
     async def job_async(k, j):
+        if stagger:
+            await asyncio.sleep(k * stagger)     # decisions start while earlier ones are between two lookups
         DEC.set(k)
         try:
             res[k] = dec_dict(await guards[j["engine"]].evaluate_async(*req_objs(j["req"])))
@@ -632,6 +643,8 @@ def run_conc_impl(c):
 
     def job_thread(ks, barrier):
         barrier.wait()
+        if stagger and ks:
+            time.sleep(ks[0] * stagger)
         for k in ks:
             j = jobs[k]
             DEC.set(k)
@@ -1585,6 +1598,22 @@ def conc_cases(chk, n):
     return out
 
 
+def overlap_cases(chk):
+    """decisions on ONE engine that start while earlier ones are between two lookups of a repeated node (lookups take a
+    few ms, starts are staggered): each decision still asks each triple-and-context once, from its own frame"""
+    out = []
+    a, b = node("viewer", short=True), node("editor", subject="group:g1", ctx={"ip": "1.2.3.4"})
+    cond = {"and": [a, b, copy.deepcopy(a), {"or": [{"not": copy.deepcopy(b)}, copy.deepcopy(a)]}, copy.deepcopy(b), copy.deepcopy(a)]}
+    pol = single(cond, algo="permit-overrides")
+    for k, shape in enumerate(["coro", "async_def", "future", "task", "await_obj", "plain", "plain", "partial"]):
+        mode = "threads" if shape == "plain" else "gather"
+        engines = [{"policy": pol, "strict": False, "checker": "sync", "shape": shape, "data": {"mode": "all", "lag": 0.003}},
+                   {"policy": pol, "strict": False, "checker": "sync", "shape": shape, "data": {"mode": "all", "lag": 0.003, "neg": k % 2 == 0}}]
+        jobs = [{"engine": 0 if j % 4 else 1, "req": mkreq(sid="u%d" % (j % 2))} for j in range(8)]
+        out.append({"fam": "conc:overlap:" + shape, "kind": "conc", "mode": mode, "threads": 8, "stagger": 0.002, "engines": engines, "jobs": jobs})
+    return out
+
+
 def slow_cases(chk, n):
     out = []
     a, b = node("viewer", short=True), node("editor", subject="group:g1", ctx={"ip": "1.2.3.4"})
@@ -1701,6 +1730,7 @@ def run(chk):
     cases += conc_cases(chk, 150 if quick else 1500)
     cases += slow_cases(chk, 10 if quick else 150)
     cases += nest_cases(chk)
+    cases += overlap_cases(chk)
     cases += cond_cases(chk)
     cases += hash_cases(chk)
     chk.exhaustive = True
